@@ -18,6 +18,7 @@ Two families execute the same histories:
 Oracle: per-rule reference model over the ordered event history; the log files are parsed back
 (two header lines, then `_time<TAB>values` records) and compared line by line.
 """
+from collections.abc import MutableSequence
 import os
 import shutil
 import tempfile
@@ -42,7 +43,7 @@ ASSUMPTIONS = [
     "(test_logging.testLogUpdateFields); Share.change is an unstamped write",
     "record text is '%s' of the stamp then TAB+'%s' per prepared field, empty for a field absent from the share/deck "
     "entry (Log.log / logDeck); default fields = the share's fields at the first START (Log.prepare)",
-    "streak uses the first given field (or the share's first field) and only list values are generated; deck entries are mappings",
+    "streak uses the first given field (or the share's first field); the queue is a list, a mapping or a mutable sequence that is no list (collections.abc.MutableSequence subclass); deck entries are mappings",
     "field values are ints and short strings (no int/float or bool/int aliasing under !=)",
 ]
 META = {
@@ -397,7 +398,7 @@ def _apply(op, shares):
         shares[op[1]].stampNow()
     elif kind == "app":
         lst = shares[op[1]].get(op[2])
-        if isinstance(lst, list):
+        if isinstance(lst, (list, SeqQueue)):
             lst.append(op[3])
         elif isinstance(lst, dict):
             MAPKEYS[0] += 1
@@ -407,10 +408,37 @@ def _apply(op, shares):
         shares[op[1]].push(odict(sorted(op[2].items())))
 
 
+class SeqQueue(MutableSequence):
+    """A mutable sequence that is not a list (as collections.deque or ioflo's Deck are); prints like a list."""
+
+    def __init__(self, items=()):
+        self._l = list(items)
+
+    def __getitem__(self, i):
+        return self._l[i]
+
+    def __setitem__(self, i, v):
+        self._l[i] = v
+
+    def __delitem__(self, i):
+        del self._l[i]
+
+    def __len__(self):
+        return len(self._l)
+
+    def insert(self, i, v):
+        self._l.insert(i, v)
+
+    def __repr__(self):
+        return repr(self._l)
+
+    __str__ = __repr__
+
+
 MAPKEYS = [0]      # counter of elements put into a mapping-valued streak queue (reset per case)
 
 
-def _init_share(sh, init, unstamped=False):
+def _init_share(sh, init, unstamped=False, seq=False):
     from ioflo.aid.odicting import odict
     pairs = []
     seen = set()
@@ -418,7 +446,7 @@ def _init_share(sh, init, unstamped=False):
         if k in seen:
             continue
         seen.add(k)
-        pairs.append((k, list(v) if isinstance(v, list) else (dict(v) if isinstance(v, dict) else v)))
+        pairs.append((k, (SeqQueue(v) if seq else list(v)) if isinstance(v, list) else (dict(v) if isinstance(v, dict) else v)))
     if pairs and unstamped:
         sh.change(odict(pairs))      # unstamped write: the share keeps stamp None
     elif pairs:
@@ -433,7 +461,7 @@ def _queues_empty(case, shares, model_logs, fails, k):
             tag, si, f = lm.fields[0]
             if f:
                 val = shares[si].get(f[0])
-                if isinstance(val, (list, dict)) and len(val):
+                if isinstance(val, (list, dict, SeqQueue)) and len(val):
                     fails.append(("streak-queue-not-drained", "tick %d: after the logger run the streak list %r still holds %r"
                                   % (k, f[0], val)))
         if spec["rule"] == "deck":
@@ -463,7 +491,7 @@ def run_direct(case, ctls, root, model_logs):
     shares = []
     for s in case["shares"]:
         sh = store.create(s["path"])
-        _init_share(sh, s.get("init"), s.get("unstamped"))
+        _init_share(sh, s.get("init"), s.get("unstamped"), s.get("seq"))
         shares.append(sh)
     logs = []
     for i, spec in enumerate(case["logs"]):
@@ -579,7 +607,7 @@ def run_flo(case, ctls, root):
     shares = []
     for s in case["shares"]:
         sh = store.create(s["path"])
-        _init_share(sh, s.get("init"), s.get("unstamped"))
+        _init_share(sh, s.get("init"), s.get("unstamped"), s.get("seq"))
         shares.append(sh)
     logger = [t for t in house.taskers if t.name == "lg"][0]
     _FLO["ticks"] = case["ticks"]
@@ -738,7 +766,9 @@ def case_strategy(family):
         for rule in rules:
             if rule == "streak":
                 s_idx = len(shares)
-                shares.append({"path": "q.s", "init": [["q", draw(st.lists(elems, max_size=2))], ["r", []], ["k", 0], ["m", {}]]})
+                # the queues are lists or (a third of the cases) another kind of mutable sequence
+                shares.append({"path": "q.s", "init": [["q", draw(st.lists(elems, max_size=2))], ["r", []], ["k", 0], ["m", {}]],
+                               "seq": draw(st.sampled_from([False, False, True]))})
                 fsel = draw(st.sampled_from([None, ["q"], ["r", "k"], ["r"], ["m"], ["m"]]))
                 logs.append({"rule": rule, "loggees": [{"tag": "s", "share": s_idx, "fields": fsel}]})
             elif rule == "deck":
